@@ -19,7 +19,7 @@ F2_EXC = ['SimFault', 'ZeroDivisionError', 'ValueError', 'NoConvergence', 'Overf
 class Machine(object):
     PROP = 'C11'
     DEFAULT_SEED = 1101
-    RUNS = {'quick': 4500, 'thorough': 60000}
+    RUNS = {'quick': 3500, 'thorough': 60000}
     WALL = {'quick': 150, 'thorough': 1500}
     MIN_WALL = 90
     BUDGET = {'quick': 150000, 'thorough': 400000}
